@@ -139,7 +139,7 @@ func init() {
 			}
 			if x.TimeDevs == 0 {
 				for i, e := range strings.Split(p["seq"], ",") {
-					if ms(e[2:]) < 5000 {
+					if ms(e[2:]) < 5*time.Second {
 						if v, ok := x.Data[fmt.Sprintf("derr%d", 20+i)]; ok {
 							x.Fail("T", "establishment %d (%s) inside the window failed: %v", i+1, e, v)
 						}
